@@ -133,6 +133,9 @@ func c16Judge(list []md.IndexedEndpointType, requested string) (rule, clause str
 func init() { Registry["C16"] = runC16 }
 
 func runC16(ctx Ctx) int {
+	if rc, ok := concDispatch("C16", ctx); ok {
+		return rc
+	}
 	run := ev.NewRun("C16")
 	run.Rule = "full product of ACS lists (100 entry shapes per position) x 6 requested bindings against the real GetAcsUrlAndBindingForResponse; a state is one (list, requested) pair"
 	run.Assume = []string{"locations are made unique per position so the chosen entry is identifiable", "index values outside {0,1,2,7,65535} and non-numeric indexes are outside the alphabet"}
@@ -259,5 +262,12 @@ func runC16(ctx Ctx) int {
 	run.Bound = fmt.Sprintf("all lists of length <= %d x %d requested bindings", completedLen, len(c16Requested))
 	run.Sample(map[string]any{"list": []md.IndexedEndpointType{c16Entry(0, 0), c16Entry(31, 1)}, "requested": c16Requested[2]})
 	c16EndToEnd(run)
+	{
+		cb, cs := 1, 90
+		if ev.Tier() == "thorough" {
+			cb, cs = 2, 1200
+		}
+		runConc(run, "C16", cb, cs)
+	}
 	return run.Finish()
 }
